@@ -151,6 +151,8 @@ theorem execMsg_ghost {m : Msg} {s s' : State} (h : execMsg m s = some s') : s'.
       · split at h
         · cases h; simp
         · cases h
+    · simp [addDepositGov, show depositGuardsModule = true from rfl] at h
+    · simp [submitGov, show depositGuardsModule = true from rfl] at h
 
 theorem execMsgs_ghost : ∀ (ms : List Msg) (s s' : State), execMsgs ms s = some s' →
     s'.paid = s.paid ∧ s'.deps = s.deps ∧ s'.settled = s.settled := by
